@@ -219,8 +219,13 @@ def model_line(case):
         if op['k'] == 'b':
             toks.append('b:' + enc_text(op['v']))
             continue
+        if op['k'] == 'read':           # the model's own read / readline definitions (Ra.readN, Ra.readAll, Ra.readline)
+            toks.append('n:%d' % op['n'] if op['n'] > 0 else 'a:%d' % (op['W'] or 0)); continue
+        if op['k'] == 'readline':
+            toks.append('l:%d' % (op['W'] or 0)); continue
         kind, pats = op_pats_for_model(op)
-        toks.append('%s:%d:%s' % (kind, op['W'] or 0, '+'.join(pat_tok(p, op) for p in pats) if pats else '_'))
+        W = op['W'] or 0
+        toks.append('%s:%d:%s' % (kind, W, '+'.join(pat_tok(p, op) for p in pats) if pats else '_'))
     toks.append('@')
     toks += model_script(case)
     return ' '.join(toks)
@@ -356,6 +361,8 @@ def run_real(case):
                 rec['canon'] = canon(kind, None, b, None, b if kind == 'TIMEOUT' else buf, None)
             else:
                 rec['canon'] = kind
+            if k in ('read', 'readline'):
+                rec['canon'] += ' v=' + (enc_text(rec['value']) if 'value' in rec else '!')
             recs.append(rec)
         return recs, [to_text(d, mode) for d in p.delivered]
     finally:
@@ -387,6 +394,11 @@ def compile_for_oracle(op, mode):
     return out, eof_i, tmo_i
 
 
+def eff_W(op):
+    """the window a call really uses: read(n > 0) always searches from the front of the pending text"""
+    return None if (op['k'] == 'read' and op.get('n', 0) > 0) else op.get('W')
+
+
 def naive_search(fns, B, W):
     w = B if not W else B[-W:]
     best = None
@@ -412,7 +424,7 @@ def run_naive(case):
             recs.append(dict(kind='set', canon='set'))
             continue
         fns, eof_i, tmo_i = compile_for_oracle(op, mode)
-        W = op.get('W')
+        W = eff_W(op)
         nd = 0
 
         def fin(kind, i, b, a, pend):
@@ -466,13 +478,15 @@ def oracle_c01(case, recs, delivered):
         if r['kind'].startswith('EXC'):
             return 'call %d raised %s' % (n, r['kind'])
         got = start_pending + ''.join(delivered[base:r['delivered']])
+        returned = 'value' in r and r.get('op') in ('read', 'readline')
         if r['kind'] == 'hit':
-            handed += r['before'] + r['after']
+            # read(n) / readline() hand back their return value; the expect family hands back before + after
+            handed += r['value'] if returned else (r['before'] + r['after'])
             pend = r['buffer']
         elif r['kind'] in ('timeoutidx', 'TIMEOUT'):
             pend = r['before']
         else:                   # EOF: before is handed back, nothing stays pending
-            handed += r['before']
+            handed += r['value'] if returned else r['before']
             pend = r['buffer']
         if handed + pend != got:
             return 'call %d (%s): handed %r + pending %r != received %r' % (n, r['kind'], handed, pend, got)
@@ -481,9 +495,9 @@ def oracle_c01(case, recs, delivered):
             exp = (r['before'] + r['after']) if r['kind'] == 'hit' else r['before']
             if r['value'] != exp:
                 return 'call %d: %s returned %r, removed %r' % (n, r['op'], r['value'], exp)
-        # read(n) returns `after` only; with a search window smaller than the pending text its `before` can be
-        # non-empty (source: "FIXME self.before should be ''").  The property counts before+after, which is
-        # conserved, so this is recorded in DESIGN.md as an observation and not judged here.
+        if 'value' in r and r['op'] == 'read' and r['kind'] == 'hit' and case['ops'][n]['n'] > 0:
+            if len(r['value']) != case['ops'][n]['n']:
+                return 'call %d: read(%d) returned %d characters' % (n, case['ops'][n]['n'], len(r['value']))
     return None
 
 
@@ -496,7 +510,7 @@ def oracle_c02(case, recs, delivered):
         op = case['ops'][n]
         fns, _, _ = compile_for_oracle(op, mode)
         T = r['before'] + r['after'] + r['buffer']
-        exp = naive_search(fns, T, op.get('W'))
+        exp = naive_search(fns, T, eff_W(op))
         if exp is None:
             return 'call %d: reported match %r but no listed pattern occurs in the searched text %r' % (n, r['after'], T)
         i, b, a, rest = exp
@@ -506,7 +520,7 @@ def oracle_c02(case, recs, delivered):
         if r.get('match_index') != r['index'] or not r.get('match_ok'):
             return 'call %d: match / match_index do not describe the reported occurrence' % n
         if 'span' in r:
-            w = T if not op.get('W') else T[-op['W']:]
+            w = T if not eff_W(op) else T[-eff_W(op):]
             off = len(T) - len(w)
             if r['span'] != [len(b) - off, len(b) - off + len(a)]:
                 return 'call %d: match.span() %r != occurrence %r' % (n, r['span'], [len(b) - off, len(b) - off + len(a)])
@@ -562,12 +576,16 @@ def evaluate(case, model_out=None):
     if model_out is not None:
         res['model'] = model_out.split(' | ')
         res['model_diff'] = (strip_s(res['model']) != strip_s(res['real']))
-        res['model_vs_naive'] = (strip_s(res['model']) != strip_s(res['naive']))
+        res['model_vs_naive'] = (strip_v(res['model']) != strip_v(res['naive']))
     return res
 
 
 def strip_s(lines):
     return [re.sub(r' s=\S*', '', l) for l in lines]
+
+
+def strip_v(lines):
+    return [re.sub(r' v=\S*', '', l) for l in strip_s(lines)]
 
 
 # --------------------------------------------------------------------------------------------- shrinking
